@@ -138,7 +138,7 @@ SPEC = {
     "iCE40PLL": dict(quick=dict(n_in=6, n1=12), thorough=dict(n_in=14, n1=19)),
     # fractional CLKOUT0: every refused (D, M) pair costs 1016 more divider tests
     "S7MMCM":   dict(quick=dict(n2=3, n3=2, cut1=450e6, cut2=260e6, cut3=130e6), thorough=dict(n2=6, cut3=260e6)),
-    "USPMMCM":  dict(quick=dict(n_in=1, n1=3, n2=2, n3=2, nm=1, cut1=130e6, m2="three", m3="two"),
+    "USPMMCM":  dict(quick=dict(n_in=1, n1=3, n2=4, n3=2, nm=1, cut1=130e6, m2="three", m3="two"),
                      thorough=dict(n_in=4, n1=8, n2=4, n3=3, nm=2, cut1=260e6, cut3=130e6, m2="few", m3="few", mm=(1e-2,))),
     "ECP5PLL":  dict(quick=dict(), thorough=dict(n_in=6, n2=6)),
     "NXPLL":    dict(quick=dict(n3=2), thorough=dict(n_in=6, n2=6, n3=3)),
@@ -164,7 +164,8 @@ class Grid:
         lo_o = max(self.reach[0], out_rng[0]) if out_rng else self.reach[0]
         hi_o = min(self.reach[1], out_rng[1]) if out_rng else self.reach[1]
         hi_o = min(hi_o, 2.4e9)                        # S6DCM declares no real VCO ceiling (1e16)
-        core_in = [f for f in IN_TYPICAL if in_rng[0] < f < in_rng[1]][:z["n_in"]]
+        typ_in = ([50e6, 25e6] + IN_TYPICAL) if isinstance(fam, F.Intel) else IN_TYPICAL  # Intel boards: 50 MHz first
+        core_in = uniq([f for f in typ_in if in_rng[0] < f < in_rng[1]])[:z["n_in"]]
         self.inputs = uniq([in_rng[0] * (1 - 1e-3), in_rng[0]] + sorted(core_in) + [in_rng[1], in_rng[1] * (1 + 1e-3)])
         cand = [f for f in OUT_ROUND if lo_o < f < hi_o]
         awk = [f for f in OUT_AWKWARD if lo_o < f < hi_o]
@@ -255,7 +256,7 @@ class GowinGrid(Grid):
                 for m in MARGINS:
                     for p in (0, 90):
                         yield Req(fin, [(P, p, m)])
-                for k in ((1, 2, 3, 4, 5) if quick else (1, 2, 3, 4, 6, 8, 5, 130)):
+                for k in ((1, 2, 3, 4, 5, 130) if quick else (1, 2, 3, 4, 6, 8, 5, 130)):
                     for ph in ((0, 0), (0, 90), (90, 0), (90, 90)):
                         for ms in (((1e-2, 1e-2), (0, 0), (1e-2, 1e-4)) if quick else ((1e-2, 1e-2), (1e-4, 1e-4), (0, 0), (1e-2, 1e-4))):
                             yield Req(fin, [(P, ph[0], ms[0]), (P / k, ph[1], ms[1])])
@@ -497,3 +498,13 @@ def replay(rec):
     rules = [v[0] for v in res["viol"]]
     return dict(cfg=rec["cfg"], rule=rec["rule"], reproduced=rec["rule"] in rules, request=repr(req), outcome=res["kind"],
                 config=res["config"], refusal=res["exc"], violations=[(a, b) for a, b, c in res["viol"]])
+
+
+def extra_coverage(results):
+    """aggregated anti-vacuity counters for the evidence file"""
+    tot = {}
+    for r in results:
+        for k, v in (r.get("cover") or {}).items():
+            tot[k] = tot.get(k, 0) + v
+    return dict(cover_total=tot, helper_classes=sorted(set(str(r.get("cfg", "")).split("[")[0] for r in results)),
+                not_covered=["TRIONPLL", "TITANIUMPLL"])
